@@ -350,7 +350,19 @@ pub fn run(ctx: &Ctx, out: &mut Out) {
         }
         let p = with(base.clone(), "persistence_directory", dir.to_str().unwrap());
         extra.push(("persistence_directory".into(), Written { pairs: with(p, "client_stats", "on"), via_env }, false, Some(("persistence_directory", json!(dir.to_str().unwrap())))));
+        // a key written with an empty value is not a value: start-up must be refused
+        for key in ["batch_size", "fault_percentage", "num_workers", "port", "status_interval", "health_check_port"] {
+            if via_env {
+                extra.push((format!("empty-value-{}", key), Written { pairs: with(base.clone(), key, ""), via_env }, true, None));
+            } else {
+                for (nm, v) in [("empty", ""), ("tilde", "~"), ("null", "null")] {
+                    extra.push((format!("{}-value-{}", nm, key), Written { pairs: with(base.clone(), key, v), via_env }, true, None));
+                }
+            }
+        }
         if !via_env {
+            // a misspelt key with an empty value is still an unknown key
+            extra.push(("unknown-key-empty-value".into(), Written { pairs: with(base.clone(), "batchsize", ""), via_env }, true, None));
             // a second YAML document: what is written after the separator must be honoured or the
             // file refused -- never silently dropped
             let mut p = base.clone();
@@ -427,7 +439,7 @@ fn effective_on_running_server(ctx: &Ctx, out: &mut Out, rng: &mut Rng, seed: &[
     use crate::refimpl::crypto::Proto;
     use crate::refimpl::verify::{verify_response, Opts, ReqView};
     let pk = RefKey::from_seed(seed).public();
-    let plan: Vec<(&str, u32)> = vec![("num_workers", 1), ("num_workers", 3), ("num_workers", 19), ("batch_size", 1), ("batch_size", 2), ("batch_size", 5), ("batch_size", 64), ("num_workers", 17), ("batch_size", 33)];
+    let plan: Vec<(&str, u32)> = vec![("num_workers", 1), ("num_workers", 3), ("num_workers", 19), ("batch_size", 1), ("batch_size", 2), ("batch_size", 5), ("batch_size", 64), ("num_workers", 17), ("batch_size", 33), ("fault_percentage", 50), ("fault_percentage", 1), ("fault_percentage", 25), ("health_check_port_busy", 0), ("fault_percentage", 49), ("num_workers_pinned", 4), ("num_workers_pinned", 3)];
     for (i, (key, v)) in plan.iter().enumerate() {
         if i as u64 % ctx.nshards != ctx.shard {
             continue;
@@ -435,12 +447,45 @@ fn effective_on_running_server(ctx: &Ctx, out: &mut Out, rng: &mut Rng, seed: &[
         let via_env = i % 2 == 1;
         let mut cfg = SrvCfg::new(free_port(false), seed);
         cfg.via_env = via_env;
+        let mut held: Option<std::net::TcpListener> = None;
         match *key {
             "num_workers" => cfg.num_workers = Some(*v),
+            "num_workers_pinned" => {
+                // more workers written than CPUs the process may use
+                cfg.num_workers = Some(*v);
+                cfg.pin = Some("0,1".into());
+            }
+            "fault_percentage" => {
+                cfg.fault_percentage = Some(*v);
+                cfg.num_workers = Some(2);
+            }
+            "health_check_port_busy" => {
+                // the written health-check port is held by somebody else: the server cannot run with
+                // the written value, so it must not run at all
+                let hp = free_port(true);
+                held = std::net::TcpListener::bind(("127.0.0.1", hp)).ok();
+                cfg.health_check_port = Some(hp);
+                cfg.num_workers = Some(1);
+            }
             _ => {
                 cfg.batch_size = Some(*v);
                 cfg.num_workers = Some(1);
             }
+        }
+        if *key == "health_check_port_busy" {
+            let Ok(mut sp) = spawn_server(&ctx.bins, &cfg, &ctx.scratch, &format!("eff{}", i), None) else { continue };
+            let ready = sp.wait_ready(&pk, Duration::from_secs(4)).is_ok();
+            out.obs("running_server_spot_checks", 1);
+            out.case(fnv64(format!("effbusy{}", via_env).as_bytes()), true);
+            if ready && held.is_some() {
+                out.violation(
+                    &format!("C16 {} health_check_port written-but-not-in-effect", if via_env { "env" } else { "file" }),
+                    "health_check_port is set to a port another process listens on; the server nevertheless starts and serves time without the configured health check",
+                    json!({"kind":"running-server-spot-check","key":"health_check_port","source": if via_env {"env"} else {"file"}}),
+                );
+            }
+            sp.kill();
+            continue;
         }
         let Ok(mut sp) = spawn_server(&ctx.bins, &cfg, &ctx.scratch, &format!("eff{}", i), None) else { continue };
         if sp.wait_ready(&pk, Duration::from_secs(10)).is_err() {
@@ -451,7 +496,37 @@ fn effective_on_running_server(ctx: &Ctx, out: &mut Out, rng: &mut Rng, seed: &[
         let desc = json!({"kind":"running-server-spot-check","key":key,"written":v,"source": if via_env {"env"} else {"file"}});
         out.obs("running_server_spot_checks", 1);
         out.case(fnv64(format!("eff{}{}{}", key, v, via_env).as_bytes()), true);
-        if *key == "num_workers" {
+        if *key == "fault_percentage" {
+            // the share of replies that fail verification must be the written percentage
+            let n = 600usize;
+            let mut failing = 0usize;
+            let mut answered = 0usize;
+            for _ in 0..n {
+                match probe(sp.cfg.port, &pk, if rng.chance(1, 2) { Proto::Classic } else { Proto::Ietf }, rng, Duration::from_millis(500)) {
+                    Ok(_) => answered += 1,
+                    Err(e) if e.starts_with("reply does not verify") => {
+                        answered += 1;
+                        failing += 1;
+                    }
+                    Err(_) => {}
+                }
+            }
+            if answered >= 500 {
+                let pf = *v as f64 / 100.0;
+                let sigma = (pf * (1.0 - pf) / answered as f64).sqrt();
+                let share = failing as f64 / answered as f64;
+                out.obs("running_server_fault_rate_checks", 1);
+                if (share - pf).abs() > 6.0 * sigma + 0.002 {
+                    out.violation(
+                        &format!("C16 {} fault_percentage {}->{:.0} on-running-server", if via_env { "env" } else { "file" }, v, share * 100.0),
+                        &format!("fault_percentage={} written; {} of {} replies of the running server fail verification (share {:.3}, expected {:.3} +- 6*{:.3})", v, failing, answered, share, pf, sigma),
+                        desc.clone(),
+                    );
+                }
+            } else {
+                out.inconclusive("fault-rate spot check: too few replies");
+            }
+        } else if key.starts_with("num_workers") {
             let names: std::collections::HashSet<String> = sp.thread_names().into_iter().filter(|n| n.starts_with("worker-")).collect();
             if names.len() != *v as usize {
                 out.violation(
